@@ -227,7 +227,7 @@ Definition prog_header (fx : fixes) (selfc validargs : bool) : prog :=
       mem_src ;;
       (* F9 fix: an ICC profile extracted from a previous image does not belong to this one *)
       (if fx9 fx then CSet (T "tempICCBuf") (EC 0) ;; CSet (T "tempICCSize") (EC 0) else CSkip) ;;
-      CIf icc_wanted (CSet (D "marker->save_APP2") (EC 1)) CSkip ;;
+      CIf icc_wanted (CSet (D "marker->save_APP2") (EC 1)) CSkip ;;     (* jpeg_save_markers: never switched off again *)
       header_or_tables selfc false (CGoto TReturn) ;;
       set_decomp_parameters ;;
       CIf icc_wanted use_marker_list CSkip ;;
@@ -303,9 +303,8 @@ Definition finish_decompress : cmd :=
 (* --- tj3Decompress8/12/16 ---------------------------------------------------- *)
 Definition crop_set : expr :=
   EOr (ENe (P "croppingRegion.y") (EC 0)) (ENe (P "croppingRegion.h") (EC 0)).
-Definition prog_decompress (fx : fixes) (name : string) (selfc crop merged : bool) : prog :=
-  mk name
-     (prologue ;; throw S_ARGS ;;
+Definition decompress_body (fx : fixes) (selfc crop merged : bool) : cmd :=
+      prologue ;; throw S_ARGS ;;
       set_progress ;;
       CSet (D "mem->max_memory_to_use") (P "maxMemory") ;;
       CSetjmp 0 ;; CSet warning (EA "warn") ;;
@@ -330,7 +329,10 @@ Definition prog_decompress (fx : fixes) (name : string) (selfc crop merged : boo
               CIf (EA "skip_tail") (skip_scanlines fx merged ;; throw S_CROP) CSkip)
              (read_scanlines merged)
        else read_scanlines merged) ;;
-      finish_decompress).
+      finish_decompress.
+
+Definition prog_decompress (fx : fixes) (name : string) (selfc crop merged : bool) : prog :=
+  mk name (decompress_body fx selfc crop merged).
 
 (* --- tj3DecompressToYUV8 -> tj3DecompressToYUVPlanes8 ---------------------------- *)
 (* the wrapper reads the header itself (handler 0) and then calls the planar function with
@@ -548,9 +550,8 @@ Definition caller_buffer : cmd :=
   CIf (EEq (EA "bufmode") (EC 0)) (CDest DArgNull (EC 0))
       (CIf (EEq (EA "bufmode") (EC 1)) (CDest DArgFresh (EC 0)) (CDest DArgReuse (EC 0))).
 
-Definition prog_compress (fx : fixes) (name : string) (bits : Z) : prog :=
-  mk name
-     (caller_buffer ;;
+Definition compress_body (fx : fixes) (bits : Z) : cmd :=
+      caller_buffer ;;
       prologue ;; throw S_ARGS ;;
       CSetjmp 0 ;; CSet warning (EA "warn") ;;
       CSet (C "image_width") (EA "w") ;; CSet (C "image_height") (EA "h") ;;
@@ -564,7 +565,10 @@ Definition prog_compress (fx : fixes) (name : string) (bits : Z) : prog :=
       stage S_CSCAN ;; grow ;;
       seq (map (fun p => CDeref (C p)) cptrs) ;;
       CObs "pixels" (EA "img") ;;
-      finish_compress).
+      finish_compress.
+
+Definition prog_compress (fx : fixes) (name : string) (bits : Z) : prog :=
+  mk name (compress_body fx bits).
 
 Definition prog_compress_yuv (fx : fixes) : prog :=
   mk "tj3CompressFromYUVPlanes8"
@@ -604,6 +608,23 @@ Definition prog_encode_yuv : prog :=
       CSet (C "next_scanline") (EA "h") ;;
       abortc OC).
 
+Definition copy_row : Type := (Z * ((bool * bool * bool) * (bool * bool * bool)))%type.
+(* jcopy_markers_setup(dinfo, option): switches the saving of marker classes ON (sticky members of the marker
+   reader; nothing ever switches them off); rows from the regenerated copy_option_table *)
+Definition jcopy_markers_setup (opt : expr) : cmd :=
+  seq (map (fun row : copy_row => let '(o, ((sc_, sa2, sao), _)) := row in
+                       CIf (EEq opt (EC o))
+                           ((if sc_ then CSet (D "marker->save_COM") (EC 1) else CSkip) ;;
+                            (if sa2 then CSet (D "marker->save_APP2") (EC 1) else CSkip) ;;
+                            (if sao then CSet (D "marker->save_APPn") (EC 1) else CSkip))
+                           CSkip) copy_option_table).
+(* which classes jcopy_markers_execute lets through for an option is within what jcopy_markers_setup switched on
+   for the same option (theorem C12_copy_filter_within_setup): the copied markers depend on the stream and the
+   option only, whatever else earlier calls switched on *)
+Definition copy_filter_within_setup : bool :=
+  forallb (fun row : copy_row => let '(_, ((sc_, sa2, sao), (pc, pa2, pao))) := row in
+                      (negb pc || sc_) && (negb pa2 || sa2) && (negb pao || sao)) copy_option_table.
+
 (* --- tj3Transform (one transform) ------------------------------------------------ *)
 Definition copy_critical_parameters (fx : fixes) : cmd :=
   CIf (ENe (EG gsc) (EC cstate_start)) CRaise CSkip ;;
@@ -621,16 +642,44 @@ Definition copy_critical_parameters (fx : fixes) : cmd :=
   CSet (C "density_unit") (EG (D "density_unit")) ;; CSet (C "X_density") (EG (D "X_density")) ;;
   CSet (C "Y_density") (EG (D "Y_density")).
 
-Definition prog_transform (fx : fixes) (selfc : bool) : prog :=
-  mk "tj3Transform"
-     (caller_buffer ;;
+Definition xarg (sfx n : string) : expr := EA (n ++ sfx).
+Definition finish_compress_nodest : cmd := stage S_CFINISH ;; abortc OC.
+(* one output image of tj3Transform; sfx selects the arguments of the i-th transform; only the first output
+   buffer is followed through the destination-manager model *)
+Definition transform_output (fx : fixes) (sfx : string) (dest : bool) : cmd :=
+      CSet allocv (ENot (P "noRealloc")) ;;
+      CIf (xarg sfx "nooutput") CSkip (if dest then mem_dest fx else stage S_MEMDEST) ;;
+      copy_critical_parameters fx ;;
+      CIf (EOr (P "optimize") (xarg sfx "x_optimize")) (CSet (C "optimize_coding") (EC 1)) CSkip ;;
+      CIf (EOr (P "progressive") (xarg sfx "x_progressive")) (CSet (C "scan_info") (EC 1) ;; CSet (C "num_scans") (EC 10)) CSkip ;;
+      CIf (EOr (P "arithmetic") (xarg sfx "x_arithmetic")) (CSet (C "arith_code") (EC 1) ;; CSet (C "optimize_coding") (EC 0)) CSkip ;;
+      CSet (C "restart_interval") (P "restartIntervalBlocks") ;; CSet (C "restart_in_rows") (P "restartIntervalRows") ;;
+      CIf (xarg sfx "nooutput")
+          (stage S_WRCOEF ;; observe_comp_params ;; master_control ;; throw S_XTHROW)
+          (CIf (ENe (EG gsc) (EC cstate_start)) CRaise CSkip ;;
+           stage S_WRCOEF ;;
+           observe_comp_params ;;
+           master_control ;;
+           CAlloc (C "entropy") ;; CAlloc (C "coef") ;; CAlloc (C "marker") ;;
+           account OC ;;
+           CSet (C "next_scanline") (EC 0) ;;
+           CSet gsc (EC cstate_wrcoefs) ;;
+           CObs "copy_markers" (EIte (xarg sfx "copynone") (EC 0) (P "saveMarkers")) ;;
+           use_marker_list ;;
+           write_icc ;;
+           throw S_XTHROW ;;
+           CDeref (C "coef") ;; CDeref (C "entropy") ;; CDeref (C "marker") ;; (if dest then finish_compress else finish_compress_nodest)).
+
+Definition transform_body (fx : fixes) (selfc two : bool) : cmd :=
+      caller_buffer ;;
       prologue ;; throw S_ARGS ;;
       set_progress ;;
       CSet (D "mem->max_memory_to_use") (P "maxMemory") ;;
       CSetjmp 0 ;; CSet warning (EA "warn") ;;
       CIf (ELe (EG gsd) (EC dstate_inheader)) mem_src CSkip ;;
       throw S_XTHROW ;;
-      CSet (D "marker->save_flags") (EIte (EA "copynone") (EC 0) (P "saveMarkers")) ;;
+      (* marker saving is switched on unless EVERY transform asks for TJXOPT_COPYNONE *)
+      jcopy_markers_setup (EIte (EA "copynone_all") (EC 0) (P "saveMarkers")) ;;
       CIf (ELe (EG gsd) (EC dstate_inheader)) (header_or_tables selfc true CSkip) CSkip ;;
       throw S_POSTHDR ;;
       CDeref (D "comp_info") ;;
@@ -650,30 +699,62 @@ Definition prog_transform (fx : fixes) (selfc : bool) : prog :=
       CSet (D "unread_marker") (EA "um_end") ;;
       CSet gsd (EC dstate_stopping) ;;
       CObs "coefficients" (EA "img") ;;
-      (* one output image *)
-      CSet allocv (ENot (P "noRealloc")) ;;
-      CIf (EA "nooutput") CSkip (mem_dest fx) ;;
-      copy_critical_parameters fx ;;
-      CIf (EOr (P "optimize") (EA "x_optimize")) (CSet (C "optimize_coding") (EC 1)) CSkip ;;
-      CIf (EOr (P "progressive") (EA "x_progressive")) (CSet (C "scan_info") (EC 1) ;; CSet (C "num_scans") (EC 10)) CSkip ;;
-      CIf (EOr (P "arithmetic") (EA "x_arithmetic")) (CSet (C "arith_code") (EC 1) ;; CSet (C "optimize_coding") (EC 0)) CSkip ;;
-      CSet (C "restart_interval") (P "restartIntervalBlocks") ;; CSet (C "restart_in_rows") (P "restartIntervalRows") ;;
-      CIf (EA "nooutput")
-          (stage S_WRCOEF ;; observe_comp_params ;; master_control ;; throw S_XTHROW)
-          (CIf (ENe (EG gsc) (EC cstate_start)) CRaise CSkip ;;
-           stage S_WRCOEF ;;
-           observe_comp_params ;;
-           master_control ;;
-           CAlloc (C "entropy") ;; CAlloc (C "coef") ;; CAlloc (C "marker") ;;
-           account OC ;;
-           CSet (C "next_scanline") (EC 0) ;;
-           CSet gsc (EC cstate_wrcoefs) ;;
-           CObs "copy_markers" (EIte (EA "copynone") (EC 0) (P "saveMarkers")) ;;
-           use_marker_list ;;
-           write_icc ;;
-           throw S_XTHROW ;;
-           CDeref (C "coef") ;; CDeref (C "entropy") ;; CDeref (C "marker") ;; finish_compress) ;;
-      finish_decompress).
+      transform_output fx "" true ;;
+      (if two then transform_output fx "2" false else CSkip) ;;
+      finish_decompress.
+
+Definition prog_transform (fx : fixes) (selfc two : bool) : prog :=
+  mk "tj3Transform" (transform_body fx selfc two).
+
+(* ------------------------------------------------------------ legacy (TurboJPEG 2.x) wrappers *)
+Definition S_LARGS := 22.   Definition S_LSCALE := 23.
+(* processFlags(handle, flags, operation): the flag bits arrive as separate arguments *)
+Definition process_flags (compress : bool) : cmd :=
+  CSet (T "bottomUp") (EA "fl_bottomup") ;;
+  CSet (T "fastUpsample") (EA "fl_fastupsample") ;;
+  CSet (T "noRealloc") (EA "fl_norealloc") ;;
+  (if compress
+   then CIf (EOr (ELe (EC 96) (P "quality")) (EA "fl_accuratedct")) (CSet (T "fastDCT") (EC 0)) (CSet (T "fastDCT") (EC 1))
+   else CSet (T "fastDCT") (EA "fl_fastdct")) ;;
+  CSet (T "jerr.stopOnWarning") (EA "fl_stoponwarning") ;;
+  CSet (T "progressive") (EA "fl_progressive") ;;
+  CIf (EA "fl_limitscans") (CSet (T "scanLimit") (EC 500)) CSkip.
+
+(* tjCompress2: quality / subsampling / flags into the parameters, then tj3Compress8 *)
+Definition prog_legacy_compress (fx : fixes) : prog :=
+  mk "tj3Compress8"
+     (prologue ;; throw S_LARGS ;;
+      CSet (T "quality") (EA "qual") ;; CSet (T "subsamp") (EA "ss") ;;
+      process_flags true ;;
+      compress_body fx 8).
+
+(* tjDecompress2: reads the header itself (own setjmp handler and bailout block), picks the scaling factor, clears
+   the cropping region, then tj3Decompress8 continues from DSTATE_READY *)
+Definition prog_legacy_decompress (fx : fixes) (selfc merged : bool) : prog :=
+  mkprog
+     (prologue ;; throw S_LARGS ;;
+      CSetjmp 0 ;; CSet warning (EA "warn") ;;
+      mem_src ;; header_or_tables selfc true CSkip ;;
+      throw S_LSCALE ;;
+      process_flags false ;;
+      CSet (T "scalingFactor.num") (EA "sfn") ;; CSet (T "scalingFactor.denom") (EA "sfd") ;;
+      CSet (T "croppingRegion.x") (EC 0) ;; CSet (T "croppingRegion.y") (EC 0) ;;
+      CSet (T "croppingRegion.w") (EC 0) ;; CSet (T "croppingRegion.h") (EC 0) ;;
+      decompress_body fx selfc false merged)
+     (handlers_of "tjDecompress2" ++ handlers_of "tj3Decompress8")%list
+     (bailout_of "tj3Decompress8").
+
+(* tjTransform: flags into the parameters; with TJFLAG_NOREALLOC it reads the header first to size the buffers *)
+Definition prog_legacy_transform (fx : fixes) (selfc : bool) : prog :=
+  mkprog
+     (prologue ;; throw S_LARGS ;;
+      CSetjmp 0 ;; CSet warning (EA "warn") ;;
+      process_flags true ;;
+      CIf (P "noRealloc") (mem_src ;; header_or_tables selfc true CSkip ;; CDeref (D "comp_info")) CSkip ;;
+      throw S_LSCALE ;;
+      transform_body fx selfc false)
+     (handlers_of "tjTransform" ++ handlers_of "tj3Transform")%list
+     (bailout_of "tj3Transform").
 
 (* ------------------------------------------------------------ operation kinds *)
 Inductive bits := B8 | B12 | B16.
@@ -690,7 +771,8 @@ Inductive opk :=
   | KDecompress (b : bits) (selfc : bool) (crop : bool) (merged : bool)
   | KDecompressYUV (selfc : bool)
   | KDecodeYUV (merged : bool) | KGetICC | KTransformBufSize
-  | KTransform (selfc : bool).
+  | KTransform (selfc : bool) (two : bool)
+  | KLegacyCompress | KLegacyDecompress (selfc : bool) (merged : bool) | KLegacyTransform (selfc : bool).
 
 Definition prog_of (fx : fixes) (k : opk) : prog :=
   match k with
@@ -707,12 +789,15 @@ Definition prog_of (fx : fixes) (k : opk) : prog :=
   | KDecodeYUV m => prog_decode_yuv fx m
   | KGetICC => prog_get_icc
   | KTransformBufSize => prog_transform_bufsize
-  | KTransform s => prog_transform fx s
+  | KTransform s t2 => prog_transform fx s t2
+  | KLegacyCompress => prog_legacy_compress fx
+  | KLegacyDecompress s m => prog_legacy_decompress fx s m
+  | KLegacyTransform s => prog_legacy_transform fx s
   end.
 
 Definition is_selfc (k : opk) : bool :=
   match k with
-  | KHeader s _ | KDecompress _ s _ _ | KDecompressYUV s | KTransform s => s
+  | KHeader s _ | KDecompress _ s _ _ | KDecompressYUV s | KTransform s _ | KLegacyDecompress s _ | KLegacyTransform s => s
   | _ => true
   end.
 
@@ -782,7 +867,8 @@ Definition hist_fields (fx : fixes) : list fld :=
   flat_map (fun k => prog_fields (prog_of fx k))
            [KSet; KSetScaling; KSetCrop; KSetICC; KCompress B8; KCompress B12; KCompress B16; KCompressYUV; KEncodeYUV;
             KHeader false false; KDecompress B8 false true false; KDecompress B12 false true false; KDecompress B16 false false false;
-            KDecompressYUV false; KDecodeYUV false; KGetICC; KTransformBufSize; KTransform false].
+            KDecompressYUV false; KDecodeYUV false; KGetICC; KTransformBufSize; KTransform false true;
+            KLegacyCompress; KLegacyDecompress false false; KLegacyTransform false].
 
 Fixpoint dedup (l acc : list fld) : list fld :=
   match l with [] => acc | f :: t => dedup t (addf f acc) end.
